@@ -1117,6 +1117,9 @@ class Engine:
                     parts.append(self.eval(v.value))
                 except (Unsupported, PyRaise):
                     parts.append(Opaque('unevaluated'))   # operands of log/exception texts are not modelled
+        plain = all(isinstance(v, ast.Constant) or (v.conversion == -1 and v.format_spec is None) for v in e.values)
+        if plain and all(isinstance(p, str) or (isinstance(p, int) and not isinstance(p, bool)) for p in parts):
+            return ''.join(str(p) for p in parts)         # concrete text
         if all(isinstance(p, str) for p in parts) and all(
                 isinstance(v, ast.Constant) or (v.conversion == -1 and v.format_spec is None) for v in e.values):
             return ''.join(parts)                         # concrete text (e.g. a struct format f'>{size}')
@@ -1928,6 +1931,10 @@ class Engine:
         if recv == '' and name == 'join' and isinstance(args[0], PyList):
             from .models.text import Joined
             return Joined(list(args[0].items))
+        if isinstance(recv, dict) and name in ('values', 'keys', 'items') and not args:
+            return PyList(list(getattr(recv, name)()))
+        if isinstance(recv, str) and name in ('lower', 'upper', 'strip') and not args:
+            return getattr(recv, name)()
         if isinstance(recv, dict) and name == 'update' and len(args) == 1 and isinstance(args[0], dict) and not kwargs:
             recv.update(args[0])
             return None
@@ -2211,6 +2218,8 @@ class Engine:
             items = args[0].items if isinstance(args[0], PyList) else list(args[0])
             start = args[1] if len(args) == 2 else kwargs.get('start', 0)
             return PyList([(start + k, x) for k, x in enumerate(items)])
+        if name == 'list' and len(args) == 1 and isinstance(args[0], PyList):
+            return PyList(list(args[0].items))
         if name == 'list' and len(args) == 1 and isinstance(args[0], (str, tuple)):
             return PyList(list(args[0]))
         if name == 'ord' and isinstance(args[0], (str, bytes)) and len(args[0]) == 1:
